@@ -908,6 +908,9 @@ class LockCheck:
 
         def judge_pending():
             t0 = time.time()
+            # the judge lists at most 100 rejected executions per call: the few static / probe / directed
+            # executions go first so that a flood of rejected explored runs cannot hide them
+            pending.sort(key=lambda r: 0 if r["source"].startswith(("S0 ", "P1 ", "D1 ")) else 1)
             v = judge_runs(chk, pending, "all")
             by_source = {}
             for ri, b in v.items():
